@@ -412,9 +412,8 @@ observation is that of the logical store `Path → Content` (every read returns 
 def C18_store_read_your_writes_full : Prop :=
   ∀ (bc : Bool) (h : List Op), (prun bc Store.empty Memo.empty h).2.2 = (lrun (abs Store.empty) h).2
 
-/-- **read-your-writes for every history** that does not rewrite a manifest within the clock second and size of a cached
-bytecode file of another text (`okOp`) and does not change the kind (zip file / directory) of a location the process has
-a path entry finder for (`okKind`) -/
+/-- **read-your-writes for every history** that does not change the kind (zip file / directory) of a location the
+process has a path entry finder for (`okKind`) — whatever the clock and the bytecode setting -/
 theorem C18_store_read_your_writes_partial (bc : Bool) (h : List Op) (hok : pokRun bc Store.empty Memo.empty h = true) :
     (prun bc Store.empty Memo.empty h).2.2 = (lrun (abs Store.empty) h).2 :=
   prun_refines bc h Store.empty Memo.empty (fresh_of_noPyc (fun _ _ hp => by cases hp)) consistent_empty hok
@@ -424,26 +423,22 @@ theorem C18_store_refines (bc : Bool) (h : List Op) (s : Store) (k : Memo) (hf :
     (hok : pokRun bc s k h = true) : (prun bc s k h).2.2 = (lrun (abs s) h).2 :=
   prun_refines bc h s k hf hc hok
 
-/-- **without bytecode files no read is ever stale**: at the file level (mtimes, `__pycache__`) every history on a store
-without bytecode files observes the logical store — no condition on the clock -/
-theorem C18_store_no_bytecode (h : List Op) (s : Store) (hs : NoPyc s) :
-    (run false s h).2 = (lrun (abs s) h).2 :=
-  (run_refines false h s (fresh_of_noPyc hs) (okRun_noPyc h s hs)).1
-
-/-- **with bytecode files a ticking clock is enough**: when every stamping operation (write, install) happens in a later
-second than everything before it, the file level observes the logical store -/
-theorem C18_store_ticking_clock (bc : Bool) (h : List Op) (T : Nat) (s : Store) (hf : Fresh s) (hb : Bound T s)
-    (ht : ticking T h = true) : (run bc s h).2 = (lrun (abs s) h).2 :=
-  (run_refines bc h s hf (okRun_ticking bc h T s hb ht)).1
+/-- **no read is ever served from stale bytecode (the repaired C18-F6)**: at the file level (mtimes in whole seconds,
+`__pycache__`) every history from a fresh store observes the logical store — bytecode files on or off, no condition on
+the clock — because `Manifest.write` removes the cache file of the module it writes -/
+theorem C18_store_file_level (bc : Bool) (h : List Op) (s : Store) (hf : Fresh s) :
+    (run bc s h).2 = (lrun (abs s) h).2 :=
+  (run_refines bc h s hf).1
 
 def m10 : SM := ⟨[112], ⟨0, [1, 0], none, none, none, none⟩, [97], []⟩
 def m11 : SM := ⟨[112], ⟨0, [1, 1], none, none, none, none⟩, [97], []⟩
 def m20 : SM := ⟨[112], ⟨0, [2, 0], none, none, none, none⟩, [97], []⟩
 
-/-- C18-F6: write `1.0`, read, write `1.1` within the same second (same length), read: the old manifest comes back -/
-theorem C18_store_bytecode_counterexample :
-    (prun true Store.empty Memo.empty [.write 0 m10 5, .read 0, .write 0 m11 5, .read 0]).2.2 = [.done, .manifest m10, .done, .manifest m10] ∧
-    (lrun (abs Store.empty) [.write 0 m10 5, .read 0, .write 0 m11 5, .read 0]).2 = [.done, .manifest m10, .done, .manifest m11] := by
+/-- the code before the repair (C18-F6): write `1.0`, read, write `1.1` within the same second (same length), read: the
+old manifest comes back; the repaired write reads `1.1` -/
+theorem C18_store_bytecode_unrepaired_counterexample :
+    (runUnrepaired true Store.empty [.write 0 m10 5, .read 0, .write 0 m11 5, .read 0]).2 = [.done, .manifest m10, .done, .manifest m10] ∧
+    (run true Store.empty [.write 0 m10 5, .read 0, .write 0 m11 5, .read 0]).2 = [.done, .manifest m10, .done, .manifest m11] := by
   decide
 
 /-- C18-F7: a zip package at a location is read, removed, a manifest is written there (now a directory): unreadable -/
@@ -456,12 +451,13 @@ theorem C18_store_kind_counterexample :
 
 theorem C18_store_read_your_writes_counterexample : ¬ C18_store_read_your_writes_full := by
   intro h
-  have h1 := h true [.write 0 m10 5, .read 0, .write 0 m11 5, .read 0]
-  rw [C18_store_bytecode_counterexample.1, C18_store_bytecode_counterexample.2] at h1
+  have h1 := h false [.create 0 m10 ⟨0, true⟩, .remove 0, .write 0 m20 1, .read 0]
+  rw [C18_store_kind_counterexample.1, C18_store_kind_counterexample.2] at h1
   revert h1
   decide
 
-/-- non-vacuity: a history with every kind of operation on three locations satisfies the hypothesis, with bytecode files on -/
+/-- non-vacuity: a history with every kind of operation on three locations satisfies the hypothesis, with bytecode files on
+(the same second twice, equal lengths) -/
 example : pokRun true Store.empty Memo.empty
     [.create 0 m10 ⟨0, false⟩, .create 1 m20 ⟨1, false⟩, .install 0 2 1, .read 2, .install 1 2 2, .read 2, .write 2 m11 3,
      .read 2, .remove 2, .install 0 2 4, .read 2] = true := by decide
@@ -504,6 +500,46 @@ theorem C18_store_install_partial (s : LStore) (src dst : Path) (t : Nat) (m : S
     tr = ltree ((lstep s (.install src dst t)).1 dst) ∧
     ((∀ m', lman (s dst) = some m' → meq m' m = true → ltree (s dst) = ltree (s src)) → tr = ltree (s src)) :=
   lstep_install s src dst t m tr h
+
+/-- **the already-installed shortcut is taken only for a manifest equal in ALL fields** (`Manifest.__eq__`: name,
+version, package, module map): when the target holds a manifest that differs from the package's in any of them, the package
+is installed — the target then holds exactly the package's manifest and content and those are the components loaded -/
+theorem C18_store_install_differs (s : LStore) (src dst : Path) (t : Nat) (m m' : SM) (tr : Option Tree)
+    (h : (lstep s (.install src dst t)).2 = .installed m tr) (hsd : src ≠ dst) (hd : lman (s dst) = some m')
+    (hne : meq m' m = false) :
+    tr = ltree (s src) ∧ lman ((lstep s (.install src dst t)).1 dst) = some m ∧
+    ltree ((lstep s (.install src dst t)).1 dst) = ltree (s src) :=
+  lstep_install_differs s src dst t m m' tr h hsd hd hne
+
+/-- what "equal" means: all four fields; a different package name or a different module map is a different manifest -/
+theorem C18_store_manifest_eq (a b : SM) :
+    (meq a b = true ↔ a.name = b.name ∧ Keys.vcmp a.version b.version = .eq ∧ a.package = b.package ∧ modEq a.modules b.modules = true) ∧
+    (a.package ≠ b.package → meq a b = false) ∧ (modEq a.modules b.modules = false → meq a b = false) := by
+  refine ⟨meq_fields a b, ?_, ?_⟩
+  · intro hp
+    cases h : meq a b with
+    | false => rfl
+    | true => exact absurd ((meq_fields a b).mp h).2.2.1 hp
+  · intro hm
+    cases h : meq a b with
+    | false => rfl
+    | true => rw [((meq_fields a b).mp h).2.2.2] at hm; cases hm
+
+def m10b : SM := ⟨[112], ⟨0, [1, 0], none, none, none, none⟩, [98, 46, 99], []⟩
+def m10m : SM := ⟨[112], ⟨0, [1, 0], none, none, none, none⟩, [97], [([112, 105, 112, 101, 108, 105, 110, 101], [102, 108, 111, 119])]⟩
+
+/-- **a name-and-version-only test would be wrong**: the target holds release `p 1.0` built in package `a`; the same
+release rebuilt in package `b.c` (or with another module map) is installed.  The code that exists (`install` = the logical
+install guarded by full equality) replaces the content; a guard on name and version keeps the old build while reporting
+the new manifest -/
+theorem C18_store_install_guard_counterexample :
+    (∀ (s : LStore) (src dst : Path) (t : Nat), lstep s (.install src dst t) = linstallG meq s src dst) ∧
+    (let s : LStore := fun p => if p = 0 then some (.zip m10b ⟨2, true⟩) else if p = 1 then some (.zip m10 ⟨1, true⟩)
+      else if p = 2 then some (.zip m10m ⟨3, true⟩) else none
+    (linstallG meq s 0 1).2 = .installed m10b (some ⟨2, true⟩) ∧ lman ((linstallG meq s 0 1).1 1) = some m10b ∧
+    (linstallG nvEq s 0 1).2 = .installed m10b (some ⟨1, true⟩) ∧ lman ((linstallG nvEq s 0 1).1 1) = some m10 ∧
+    (linstallG meq s 2 1).2 = .installed m10m (some ⟨3, true⟩) ∧ (linstallG nvEq s 2 1).2 = .installed m10m (some ⟨1, true⟩)) :=
+  ⟨fun _ _ _ _ => rfl, by decide⟩
 
 /-- two contents under one manifest: the target keeps the old content (a release is taken to be immutable) -/
 theorem C18_store_install_counterexample : ¬ C18_store_install_full := by
